@@ -354,7 +354,7 @@ def run_C06(ctx, rng, tier, res, known):
     stage_drift(ctx, res, pm, ("std", "std+alloc"), "parse_mantissa")
     if tier != "quick":
         # 32-bit limbs chunk the digits in steps of 9 instead of 19: run long inputs under Miri for i686 / s390x
-        cross_target_pass(ctx, rng, res, cases, n=120)
+        cross_target_pass(ctx, rng, res, [c for c in cases if len(c[0]) < 900], n=90)
     return {}
 
 # ------------------------------------------------------------------ C07
@@ -473,18 +473,24 @@ def cross_target_pass(ctx, rng, res, cases, n=140):
     sel = pool if len(pool) <= n else rng.sample(pool, n)
     spec = [_mod().parse_model(x)[2] for x in run_model("std", "release", sel)]
     tot = 0
-    for target, cfgs in (("i686-unknown-linux-gnu", ("std", "std+compact", "std+alloc")), ("s390x-unknown-linux-gnu", ("std",))):
-        for c in cfgs:
-            out, ub = run_miri(c, sel, target=target)
-            tot += len(out)
-            for line, o, sp in zip(sel, out, spec):
-                if sp is not None and o != sp:
-                    res.viol.append(("wrong-result-cross-target", dict(case=line, cfg=c, target=target, impl=o, spec=sp)))
-            if ub is not None:
-                if ub.get("is_ub"):
-                    res.viol.append(("miri-undefined-behaviour", dict(case=ub["case"], cfg=c, target=target, message=ub["message"])))
-                else:
-                    res.fault.append(dict(why="cross-target miri run failed", cfg=c, target=target, message=ub["message"][:300]))
+    from concurrent.futures import ThreadPoolExecutor
+    combos = [("i686-unknown-linux-gnu", c) for c in ("std", "std+compact", "std+alloc")] + [("s390x-unknown-linux-gnu", "std")]
+    # split the sample so that several Miri processes work in parallel (each is single-threaded)
+    parts = [sel[i::3] for i in range(3)]
+    jobs = [(t, c, k) for (t, c) in combos for k in range(3) if parts[k]]
+    with ThreadPoolExecutor(max_workers=min(len(jobs), 12)) as ex:
+        results = list(ex.map(lambda j: run_miri(j[1], parts[j[2]], target=j[0]), jobs))
+    specparts = [spec[i::3] for i in range(3)]
+    for (target, c, k), (out, ub) in zip(jobs, results):
+        tot += len(out)
+        for line, o, sp in zip(parts[k], out, specparts[k]):
+            if sp is not None and o != sp:
+                res.viol.append(("wrong-result-cross-target", dict(case=line, cfg=c, target=target, impl=o, spec=sp)))
+        if ub is not None:
+            if ub.get("is_ub"):
+                res.viol.append(("miri-undefined-behaviour", dict(case=ub["case"], cfg=c, target=target, message=ub["message"])))
+            else:
+                res.fault.append(dict(why="cross-target miri run failed", cfg=c, target=target, message=ub["message"][:300]))
     res.evals += tot
     res.extra["cross_target_cases"] = res.extra.get("cross_target_cases", 0) + tot
 
